@@ -718,6 +718,58 @@ def lex_value(v):
     return "(QScalar %s)" % clist(sg, "vseg")
 
 
+IDENT = re.compile(r"[A-Za-z0-9_]*")
+
+
+def lex_dollar(t, i, indq):
+    """t[i] == "$": one expansion token (or None when it is none of the modelled shapes)."""
+    nxt = t[i + 1:i + 2]
+    if nxt == "{" and "}" in t[i + 2:]:
+        j = t.find("}", i + 2)
+        return "TPE " + cstr(t[i + 2:j]), j + 1
+    if nxt == "'" and not indq:
+        ps, j = lex_pairs(t, i + 2, "'")
+        if ps is not None:
+            return "TAnsi " + c_pairs(ps), j
+        return None
+    if t[i + 1:i + 3] == "((":
+        inner, j = lex_toks(t, i + 3, ")")
+        if t[j:j + 2] == "))":
+            return "TArith " + clist(["(%s)" % x for x in inner], "tok"), j + 2
+        return None
+    m = IDENT.match(t, i + 1)
+    return "TVar " + cstr(m.group(0)), m.end()
+
+
+def lex_dq(t, i):
+    """t[i-1] was the opening quote; returns (token term, index after the closing quote) or (None, i)."""
+    toks, plain = [], []
+    while i < len(t):
+        ch = t[i]
+        if ch == '"':
+            if all(p is not None for p in plain):
+                return "TDq " + c_pairs(plain), i + 1
+            return "TDqx " + clist(["(%s)" % x for x in toks], "tok"), i + 1
+        if ch == "\\" and i + 1 < len(t):
+            toks.append("TEsc %d%%N" % ord(t[i + 1]))
+            plain.append((True, t[i + 1]))
+            i += 2
+        elif ch == "$":
+            r = lex_dollar(t, i, True)
+            if r is None:
+                toks.append("TLit 36%N")
+                i += 1
+            else:
+                toks.append(r[0])
+                i = r[1]
+            plain.append(None)
+        else:
+            toks.append("TLit %d%%N" % ord(ch))
+            plain.append((False, ch))
+            i += 1
+    return None, i
+
+
 def lex_toks(t, i, closer):
     """token list up to the statement separator (closer None) or the closing delimiter."""
     out = []
@@ -739,25 +791,21 @@ def lex_toks(t, i, closer):
                 out.append("TSq " + cstr(t[i + 1:j]))
                 i = j + 1
         elif ch == '"':
-            ps, j = lex_pairs(t, i + 1, '"')
-            if ps is None:
+            tk, j = lex_dq(t, i + 1)
+            if tk is None:
                 out.append("TLit 34%N")
                 i += 1
             else:
-                out.append("TDq " + c_pairs(ps))
+                out.append(tk)
                 i = j
-        elif ch == "$" and t[i + 1:i + 2] == "{" and "}" in t[i + 2:]:
-            j = t.find("}", i + 2)
-            out.append("TPE " + cstr(t[i + 2:j]))
-            i = j + 1
-        elif ch == "$" and t[i + 1:i + 2] == "'":
-            ps, j = lex_pairs(t, i + 2, "'")
-            if ps is None:
+        elif ch == "$":
+            r = lex_dollar(t, i, False)
+            if r is None:
                 out.append("TLit 36%N")
                 i += 1
             else:
-                out.append("TAnsi " + c_pairs(ps))
-                i = j
+                out.append(r[0])
+                i = r[1]
         elif ch in "{(":
             inner, j = lex_toks(t, i + 1, "}" if ch == "{" else ")")
             if j < len(t):
@@ -976,6 +1024,11 @@ def main(chk: Check):
             chk.nontrivial(c.data + repr((c.vars, c.funcs, c.vwl, c.fwl)))
     hc.data = "".join(t for _, _, t in hc.chunks)
     hc.impl = run_impl(hc.data, hc.vars, hc.funcs, hc.vwl, hc.fwl)
+    # The model describes the scanner WITH the repair fixes/C34-heredoc-empty-delimiter.patch.  On a tree
+    # without it the empty-delimiter here-document hangs (known finding); such runs cannot be compared
+    # with the model and are left out of (A).
+    unrepaired = hc.impl == Err("hang")
+    chk.cov["heredoc_empty_delimiter_repaired"] = not unrepaired
     for c in corpus:
         c.data = "".join(t for _, _, t in c.chunks)
         c.impl = run_impl(c.data, c.vars, c.funcs, c.vwl, c.fwl)
@@ -1008,7 +1061,7 @@ def main(chk: Check):
     for item in raw:
         s, v, f, vw, fw = item
         r = run_impl(s, v, f, vw, fw)
-        if r == Err("RecursionError"):
+        if r == Err("RecursionError") or (unrepaired and r == Err("hang")):
             continue
         raw_cases.append((c_raw(s, v, f, vw, fw), digest(r)))
         raw_kept.append((item, r))
@@ -1030,12 +1083,13 @@ def main(chk: Check):
     # ---- Coq: model and spec
     a_bad, b1_bad = [], list(b1_py)
     if ok:
+        cidx = [i for i, c in enumerate(cases) if not (unrepaired and c.impl == Err("hang"))]
         r = chk.coq_eval("dump", IMPORTS, "((list ((bool * list N) * list N)) * list (list N) * list (list N)) * (bool * bool)",
-                         [(c_case(c), digest(c.impl)) for c in cases],
+                         [(c_case(cases[i]), digest(cases[i].impl)) for i in cidx],
                          ["mismatches run_dump cases", "where_ (fun i r => negb (spec_dump_ok i r)) cases"], shard=40)
         if r is not None:
-            a_bad = r[0]
-            b1_bad = sorted(set(r[1]) | set(b1_py))
+            a_bad = [cidx[i] for i in r[0]]
+            b1_bad = sorted(set(cidx[i] for i in r[1]) | set(b1_py))
         r2 = chk.coq_eval("raw", IMPORTS, "(list N * list (list N) * list (list N)) * (bool * bool)", raw_cases,
                           ["mismatches run_filter cases"], shard=250)
         for i in (r2[0] if r2 else [])[:3]:
@@ -1067,6 +1121,9 @@ def main(chk: Check):
                                                  "input": rcases[i][2].data}, no_input=True)
             chk.cov["render_cases"] = len(rcases)
             chk.cov["dumps_inside_proved_grammar"] = len(r3[1])
+            chk.cov["share_of_bash_dumps_inside_def_ok"] = round(len(r3[1]) / max(1, len(rcases)), 3)
+            nfun = sum(1 for _, _, c in rcases for k, _, _ in c.chunks if k == "f")
+            chk.cov["render_functions"] = nfun
             chk.cov["dumps_with_a_function_outside_proved_grammar"] = len(r3[2])
             # every dump inside the proved grammar must pass (B): the theorem says so for the model
             ngr = 0
